@@ -37,6 +37,8 @@ func init() {
 	verifProtocolScenarios = append(verifProtocolScenarios,
 		verifScenario{"C03/interp.addConst/post:typed-overflow-rejected", rejected("package main\nconst a int8 = 100\nconst b = a + a\nfunc main() { println(b) }")},
 		verifScenario{"C03/interp.subConst/post:typed-overflow-rejected", rejected("package main\nconst a int8 = -100\nconst c int8 = 100\nconst b = a - c\nfunc main() { println(b) }")},
+		verifScenario{"C03/interp.shlConst/post:typed-context-representable", rejected("package main\nfunc main() { var x int8 = 1 << 7; println(x) }")},
+		verifScenario{"C03/interp.negConst/post:typed-overflow-rejected", rejected("package main\nconst a int8 = -128\nconst b = -a\nfunc main() { println(b) }")},
 		verifScenario{"C03/interp.mulConst/post:typed-overflow-rejected", rejected("package main\nconst a int8 = 100\nconst b = a * a\nfunc main() { println(b) }")},
 	)
 }
@@ -45,11 +47,14 @@ func init() {
 	rejected := func(src string) func() (bool, string) {
 		return func() (bool, string) {
 			out, err := verifOutput(src)
-			return err == nil, fmt.Sprintf("accepted: output %q, error %v; the Go type checker rejects the program", out, err)
+			return err == nil || out != "", fmt.Sprintf("accepted: output %q, error %v; the Go type checker rejects the program", out, err)
 		}
 	}
 	verifProtocolScenarios = append(verifProtocolScenarios,
 		verifScenario{"C12/interp.itype.assignableTo/post:distinct-defined-types-rejected[defined-from]", rejected("package main\ntype A int\ntype B A\nfunc main() { var a A = 1; var b B = a; println(b) }")},
+		verifScenario{"C12/interp.typecheck.comparison/post:equality-needs-comparable-or-nil", rejected("package main\nfunc main() { a, b := []int{1}, []int{1}; println(\"ran\"); println(a == b) }")},
+		verifScenario{"C12/interp.typecheck.comparison/post:ordering-needs-ordered", rejected("package main\nfunc main() { a, b := true, false; println(\"ran\"); println(a < b) }")},
+		verifScenario{"C12/interp.typecheck.comparison/post:operands-mutually-assignable", rejected("package main\nfunc main() { a, b := 1, \"x\"; println(\"ran\"); println(a == b) }")},
 		verifScenario{"C12/probe-unrelated", rejected("package main\ntype A int\ntype B int\nfunc main() { var a A = 1; var b B = a; println(b) }")},
 	)
 }
@@ -67,4 +72,51 @@ func init() {
 		out, err := verifOutput("package main\nvar a = f()\nvar b = 1\nfunc f() int { return b }\nfunc main() { println(a, b) }")
 		return out != "1 1\n", fmt.Sprintf("output %q (err %v), compiled Go prints \"1 1\\n\"", out, err)
 	}})
+}
+
+func init() {
+	// C04: slice expressions with every operand combination; the output is what compiled Go prints
+	prints := func(src, want string) func() (bool, string) {
+		return func() (bool, string) {
+			out, err := verifOutput(src)
+			return out != want || err != nil, fmt.Sprintf("output %q (err %v), compiled Go prints %q", out, err, want)
+		}
+	}
+	const pre = "package main\nfunc main() { a := []int{0,1,2,3,4,5,6,7}; lo, hi, mx := 1, 3, 6; _, _, _ = lo, hi, mx\n"
+	verifProtocolScenarios = append(verifProtocolScenarios,
+		verifScenario{"C04/interp.slice0/*", prints(pre+"b := a[:hi:mx]; c := a[:hi]; d := a[:]; println(len(b), cap(b), len(c), cap(c), len(d), cap(d)) }", "3 6 3 8 8 8\n")},
+		verifScenario{"C04/interp.slice/*", prints(pre+"b := a[lo:hi:mx]; c := a[lo:hi]; d := a[lo:]; println(len(b), cap(b), b[0], len(c), cap(c), c[0], len(d), cap(d), d[0]) }", "2 5 1 2 7 1 7 7 1\n")},
+	)
+}
+
+func init() {
+	// C03: a constant next to a float32 rounding midpoint is rounded ONCE to float32 (Go: 0x1.000002p0)
+	single := func(body string) func() (bool, string) {
+		return func() (bool, string) {
+			src := "package main\nconst L = 0x1.000001000000001p0\n" + body
+			out, err := verifOutput(src)
+			return out != "true\n" || err != nil, fmt.Sprintf("program %q prints %q (err %v); compiled Go prints \"true\\n\" (float32(L) == 0x1.000002p0)", body, out, err)
+		}
+	}
+	verifProtocolScenarios = append(verifProtocolScenarios,
+		verifScenario{"C03/interp.typecheck.convertConst/post:float32-rounded-once", single("func main() { var f float32 = L; println(f == 0x1.000002p0) }")},
+		verifScenario{"C03/interp.typecheck.convertConst/post:complex64-parts-rounded-once", single("func main() { var c complex64 = L; println(real(c) == 0x1.000002p0) }")},
+		verifScenario{"C03/interp.genValueAs//post:float32-rounded-once", single("func f() float32 { return L }\nfunc main() { println(f() == 0x1.000002p0) }")},
+		verifScenario{"C03/interp.genValueAs//post:float64-rounded-once", single("func f() float64 { return L }\nfunc main() { println(f() == 0x1.000001p0) }")},
+		verifScenario{"C03/interp.genValueAs//post:complex64-from-any-numeric-constant", single("func f() complex64 { return L }\nfunc g() complex64 { return 3 }\nfunc main() { println(real(f()) == 0x1.000002p0 && g() == 3) }")},
+		verifScenario{"C03/interp.genValueAs//post:complex128-from-any-numeric-constant", single("func f() complex128 { return 1.5 }\nfunc g() complex128 { return 3 }\nfunc main() { println(f() == 1.5 && g() == 3) }")},
+		verifScenario{"C03/interp.convertConstantValue/post:float32-rounded-once", single("func f() (float32, int) { return L, 0 }\nfunc main() { a, _ := f(); println(a == 0x1.000002p0) }")},
+		verifScenario{"C03/interp.convertConstantValue/safe:*", single("func f() uint64 { return 1 << 63 }\nfunc g() float64 { return 1 << 70 }\nfunc main() { println(f() == 9223372036854775808 && g() == 1180591620717411303424) }")},
+	)
+	rejectedC := func(body string) func() (bool, string) {
+		return func() (bool, string) {
+			out, err := verifOutput("package main\n" + body)
+			return err == nil || out != "", fmt.Sprintf("program %q accepted: output %q, error %v; the Go type checker rejects it (constant not representable in the result type)", body, out, err)
+		}
+	}
+	verifProtocolScenarios = append(verifProtocolScenarios,
+		verifScenario{"C03/interp.Interpreter.cfg/case:sendStmt/*", rejectedC("func main() { ch := make(chan int8, 1); ch <- 200; println(<-ch) }")},
+		verifScenario{"C03/interp.typecheck.binaryExpr/*", rejectedC("func main() { var x int8 = 1; println(x == 200) }")},
+		verifScenario{"C03/interp.Interpreter.cfg/case:returnStmt/*", rejectedC("func f() int8 { return 200 }\nfunc g() int { return 1.5 }\nfunc h() uint { return -1 }\nfunc main() { println(f(), g(), h()) }")},
+	)
 }
